@@ -166,9 +166,12 @@ class ProcessExecutor:
 
     def stop(self) -> None:
         """Cancel all running futures and immediately terminate their execution."""
+        # Nothing that is still pending may be started after stopping.
+        self.cancel()
         future_process_pairs = list(self._running_id_to_future_and_process.values())
         for future, process in future_process_pairs:
-            process.terminate()
+            if process.is_alive():
+                process.terminate()
             future.cancel()
             del self._running_id_to_future_and_process[future.id]
 
